@@ -43,6 +43,8 @@ def sub():
     g(300)
     r = yield 7
     g(301)
+    r2 = yield 8
+    g(302)
     return r
 
 def gen2(n):
@@ -100,6 +102,17 @@ def gen5(n):
     finally:
         return total
 
+def gen7(n):
+    # delegates to a plain iterable (which has no throw method): an exception thrown in while the generator
+    # is suspended there is handled by the generator's own code
+    g(800)
+    try:
+        yield from [1, 2]
+    except Retry:
+        g(801)
+        yield 3
+    g(802)
+
 def gen6(n):
     # bare yields (the style of a context manager or a scheduler tick)
     g(700)
@@ -115,13 +128,15 @@ def drv(steps):
     return out
 '''
 OVERLAYS = {"OG": "gen > g > w", "OW": "g > w", "OG2": "gen2 > g > w", "OG3": "gen3 > g > w",
-            "OG4": "gen4 > g > w", "OG5": "gen5(total) > g > w", "OG6": "gen6 > g > w"}
-KIND_OVERLAY = {"gen2": "OG2", "gen3": "OG3", "gen4": "OG4", "gen5": "OG5", "gen6": "OG6"}
-FUNCS = ("g", "gen", "gen2", "gen3", "gen4", "gen5", "gen6", "sub", "drv")
+            "OG4": "gen4 > g > w", "OG5": "gen5(total) > g > w", "OG6": "gen6 > g > w", "OG7": "gen7 > g > w"}
+KIND_OVERLAY = {"gen2": "OG2", "gen3": "OG3", "gen4": "OG4", "gen5": "OG5", "gen6": "OG6", "gen7": "OG7"}
+FUNCS = ("g", "gen", "gen2", "gen3", "gen4", "gen5", "gen6", "gen7", "sub", "drv")
 # what a generator kind does with a Retry exception thrown into it while it is suspended
 HANDLES_THROW = {"gen4"}
 # gen3 handles one thrown Retry when it is suspended at its second or third yield (inside the try)
-YIELDS = {"gen3": 3}
+YIELDS = {"gen3": 3, "gen2": 3}
+# suspended at these yields, a thrown Retry is caught by the generator, which then yields from its handler
+HANDLER_STATES = {"gen3": (2, 3), "gen7": (1, 2)}
 
 
 _NS = [None]
@@ -157,7 +172,7 @@ class Run:
         handler_slot = {}
         probes = {}
         # the functions are instrumented for the whole run by non-delivering probes
-        base = [probing(OVERLAYS[o], env=env) for o in ("OG", "OG2", "OG3", "OG4", "OG5", "OG6", "OW")]
+        base = [probing(OVERLAYS[o], env=env) for o in ("OG", "OG2", "OG3", "OG4", "OG5", "OG6", "OG7", "OW")]
         if inside_driver:
             pd = probing("drv > g > w", env=env)
             pd.subscribe(lambda ev: self.events["PD"].append(ev["w"]))
@@ -319,7 +334,7 @@ class System:
                 gens[op[1]] = n + 1
             return (entered, tuple(gens), ncalls), ("step", op[0])
         if op[0] == "throw":
-            if self.kinds[op[1]] == "gen3" and gens[op[1]] in (2, 3):
+            if gens[op[1]] in HANDLER_STATES.get(self.kinds[op[1]], ()):
                 gens[op[1]] = "handler"
             elif self.kinds[op[1]] not in HANDLES_THROW:
                 gens[op[1]] = "none"  # the exception ends the generator and comes back to the driver
@@ -373,11 +388,13 @@ class System:
                     probs.append(f"[{name}] driver call g({value}): 'drv > g > w' received {new['PD']!r}, expected exactly one event")
             # the generator's own calls are under the generator, however it was resumed: gen4's body calls
             # g(500 + i) before every yield of item i, also when it yields the item again after a throw()
-            if op[0] in ("next", "throw") and self.kinds[op[1]] == "gen4":
-                want = body_calls_gen4(w.history)
-                if want is not None and new["OG4"] != want:
-                    probs.append(f"[{name}] {op!r}: the generator's own calls of g should reach 'gen4 > g > w' as {want!r}, "
-                                 f"received {new['OG4']!r} <body>")
+            if op[0] in ("next", "throw") and self.kinds[op[1]] in ("gen4", "gen7"):
+                kind = self.kinds[op[1]]
+                ov = KIND_OVERLAY[kind]
+                want = body_calls(kind, w.history)
+                if want is not None and new[ov] != want:
+                    probs.append(f"[{name}] {op!r}: the generator's own calls of g should reach '{OVERLAYS[ov]}' as {want!r}, "
+                                 f"received {new[ov]!r} <body>")
             if name == "top-level" and snap != "unknown" and run.base_pairs is not None:
                 want_snap = tuple(["base"] * run.base_pairs + list(entered))
                 if snap != want_snap:
@@ -388,10 +405,12 @@ class System:
         pass
 
 
-def body_calls_gen4(history):
-    """What overlay OG4 must receive from the last operation (a next / throw on a gen4 generator), when OG4
-    has been entered since before that generator was created; None when that is not the case."""
+def body_calls(kind, history):
+    """What the overlay on '<kind> > g > w' must receive from the last operation (a next / throw on a generator
+    of that kind), when it has been entered since before that generator was created; None otherwise."""
+    ov = KIND_OVERLAY[kind]
     entered = set()
+    handler = {}
     under = {}   # slot -> OG4 entered when it was created and ever since
     count = {}
     for o in history[:-1]:
@@ -399,13 +418,16 @@ def body_calls_gen4(history):
             entered.add(o[1])
         elif o[0] == "leave":
             entered.discard(o[1])
-            if o[1] == "OG4":
+            if o[1] == ov:
                 under = {k: False for k in under}
         elif o[0] == "create":
-            under[o[1]] = "OG4" in entered
+            under[o[1]] = ov in entered
             count[o[1]] = 0
+            handler[o[1]] = False
         elif o[0] == "next":
             count[o[1]] = count.get(o[1], 0) + 1
+        elif o[0] == "throw" and kind == "gen7":
+            handler[o[1]] = True
         elif o[0] in ("close", "drop"):
             under.pop(o[1], None)
     op = history[-1]
@@ -413,6 +435,12 @@ def body_calls_gen4(history):
     if not under.get(k):
         return None
     n = count.get(k, 0)  # yields delivered so far
+    if kind == "gen7":
+        if op[0] == "throw":
+            return (801,) if not handler.get(k) else None   # caught by the generator: its handler calls g(801)
+        if handler.get(k):
+            return (802,)                                    # leaving the handler: the call after the try
+        return {0: (800,), 1: (), 2: (802,)}.get(n)
     if op[0] == "throw":
         return (500 + n - 1,)          # the same item again
     if n < 2:
@@ -423,8 +451,8 @@ def body_calls_gen4(history):
 def kinds_for(tier):
     if tier == "quick":
         # the kinds that differ in how they end (swallowed exceptions, thrown exceptions) alone
-        return [("gen", "gen"), ("gen2", "gen"), ("gen3", "gen"), ("gen4",), ("gen5",), ("gen6",)]
-    return [("gen", "gen"), ("gen2", "gen"), ("gen3", "gen"), ("gen4", "gen"), ("gen5", "gen"), ("gen4", "gen5"), ("gen6", "gen")]
+        return [("gen", "gen"), ("gen2", "gen"), ("gen3", "gen"), ("gen4",), ("gen5",), ("gen6",), ("gen7",)]
+    return [("gen", "gen"), ("gen2", "gen"), ("gen3", "gen"), ("gen4", "gen"), ("gen5", "gen"), ("gen4", "gen5"), ("gen6", "gen"), ("gen7", "gen")]
 
 
 def units(tier):
